@@ -394,7 +394,7 @@ fn c08_seq<F: Fam>(ctx: &Ctx, pk: &[(F::Packet, Vec<u8>)], seq: &[usize], schedu
 
 pub fn c08(ctx: &Ctx) {
     let (seq_len, e1_len) = if ctx.thorough() { (4, 4) } else { (3, 3) };
-    ctx.set_rule(&format!("a confusable packet alphabet per family (body-less packets, short forms, payloads ending in plausible control bytes, multi-byte topics, 128-/130-byte bodies, lists whose length only the header knows, empty payloads): ALL sequences of length <= {seq_len} through the blocking decoder (offset advanced by encode_len of the result, helpers header_len/remaining_len), all sequences of length <= 2 through the async decoder on one cursor and the poll decoder with caller-side reset under every cut set of <= 2 cuts at boundary-1..boundary+2 (with/without Pending, future kept/re-created) and byte-wise delivery; E1 state-space exploration of all sequences of length <= {e1_len} over the short packets (boundary chunk alphabet); final decode must report a clean end of input with an untouched header state; history leg: a mixed list of frames, truncations, long-string frames and malformed frames, every ordered pair decoded back to back on one thread at the same buffer address, each outcome compared with its fresh-thread baseline. Non-trivial = sequences of >= 2 packets"));
+    ctx.set_rule(&format!("a confusable packet alphabet per family (body-less packets, short forms, payloads ending in plausible control bytes, multi-byte topics, 128-/130-byte bodies, lists whose length only the header knows, empty payloads): ALL sequences of length <= {seq_len} through the blocking decoder (offset advanced by encode_len of the result, helpers header_len/remaining_len), all sequences of length <= 2 through the async decoder on one cursor and the poll decoder with caller-side reset under every cut set of <= 2 cuts at boundary-1..boundary+2 (with/without Pending, future kept/re-created) and byte-wise delivery; E1 state-space exploration of all sequences of length <= {e1_len} over the short packets (boundary chunk alphabet); sandwich leg: every value v of U_val, U_size, U_field and U_thresh (encodings <= 70,000 bytes) as the stream v ++ PUBLISH ++ v through the blocking, async (one cursor) and poll decoders with exact offsets; final decode must report a clean end of input with an untouched header state; history leg: a mixed list of frames, truncations, long-string frames and malformed frames, every ordered pair decoded back to back on one thread at the same buffer address, each outcome compared with its fresh-thread baseline. Non-trivial = sequences of >= 2 packets"));
     fn fam<F: Fam>(ctx: &Ctx, seq_len: usize, e1_len: usize) {
         let alpha = c08_alphabet(F::FAMILY);
         let pk: Vec<(F::Packet, Vec<u8>)> = alpha
@@ -420,6 +420,40 @@ pub fn c08(ctx: &Ctx) {
         seqs.par_iter().for_each(|s| c08_seq::<F>(ctx, &pk, s, s.len() <= 2));
         ctx.state(seqs.len() as u64);
         ctx.nontriv(seqs.iter().filter(|s| s.len() >= 2).count() as u64);
+        // sandwich leg: EVERY value of the value universes (U_val, U_size, U_field, U_thresh; encodings <= 70,000 bytes)
+        // framed between a copy of itself and a sentinel: v ++ PUBLISH("a", 30) ++ v through the three front-ends
+        let sentinel_ast = Ast::Publish { dup: false, qos: 0, retain: false, topic: "a".into(), pid: None, props: vec![], payload: vec![0x30] };
+        if let Some(Some(sentinel)) = guard(|| {
+            let p = F::from_ast(&sentinel_ast)?;
+            let b = F::encode(&p).ok()?.as_ref().to_vec();
+            Some((p, b))
+        })
+        .ok()
+        {
+            let (u, _) = crate::checks::values::universe(F::FAMILY, ctx);
+            let n_sand = std::sync::atomic::AtomicU64::new(0);
+            crate::checks::values::for_items(&u, &|_, a| {
+                let v = guard(|| {
+                    let p = F::from_ast(a)?;
+                    let b = F::encode(&p).ok()?.as_ref().to_vec();
+                    Some((p, b))
+                })
+                .ok()
+                .flatten();
+                // values that cannot be built / encoded are C01's and C02's business
+                if let Some(v) = v {
+                    if v.1.len() <= 70_000 {
+                        let two = [v, sentinel.clone()];
+                        c08_seq::<F>(ctx, &two, &[0, 1, 0], false);
+                        n_sand.fetch_add(1, std::sync::atomic::Ordering::Relaxed);
+                    }
+                }
+            });
+            let n = n_sand.load(std::sync::atomic::Ordering::Relaxed);
+            ctx.count(&format!("{}_sandwich_sequences", F::NAME), n);
+            ctx.state(n);
+            ctx.nontriv(n);
+        }
         // E1 over sequences of short packets
         let short: Vec<usize> = (0..pk.len()).filter(|i| pk[*i].1.len() <= 12).collect();
         let e1seqs = sequences(short.len(), e1_len);
